@@ -428,7 +428,10 @@ func init() {
 		if x.IsConst() {
 			return StrV{S: fmt.Sprint(x.Int64())}
 		}
-		return bigText(fr, BV2Int(x), 10)
+		if fr.p.branch(BVSlt(x, BVU(x.S.W, 0))) {
+			return strConcat(StrV{S: "-"}, bvText(fr, BVNeg(x), 10))
+		}
+		return bvText(fr, x, 10)
 	})
 	reg("strconv.FormatUint", func(fr *frame, fn *ssa.Function, a []Value) Value {
 		base, ok := concInt(a[1])
